@@ -7,6 +7,7 @@ import (
 	"os"
 	"strings"
 	"sync"
+	"sync/atomic"
 	"time"
 
 	"github.com/yandex/mysync/internal/config"
@@ -23,6 +24,7 @@ type c09Spec struct {
 	Events    []string `json:"events_during_maintenance"`
 	Topology  string   `json:"operator_topology"` // keep move_master two_masters no_master
 	Leave     bool     `json:"leave"`
+	FailMW    bool     `json:"first_write_of_the_master_key_on_leaving_fails"`
 	EnterRace string   `json:"enter_race"` // none switch_pending master_dead
 }
 
@@ -39,6 +41,7 @@ func c09Gen(seed int64, idx int) c09Spec {
 		sp.Events = append(sp.Events, c09Events[r.Intn(len(c09Events))])
 	}
 	sp.Topology = []string{"keep", "keep", "move_master", "two_masters", "no_master"}[r.Intn(5)]
+	sp.FailMW = sp.Leave && sp.Topology == "move_master" && r.Intn(2) == 0
 	sp.EnterRace = []string{"none", "none", "switch_pending", "master_dead"}[r.Intn(4)]
 	return sp
 }
@@ -231,6 +234,17 @@ func c09Run(u *Unit) {
 	u.Scenario(fmt.Sprintf("c09-%d-%s-%s", u.Idx, sp.Mode, sp.Topology), sp, opts, func(sc *Scen) {
 		s := sc.S
 		mon := newC09Monitor(sc, sp.Mode)
+		var failArmed, failDone atomic.Bool
+		if sp.FailMW {
+			// (installed before the daemons start; armed when the operator asks to leave)
+			s.DCSGate = func(name, method, path string) error {
+				if method == "Set" && path == "master" && failArmed.Load() && failDone.CompareAndSwap(false, true) {
+					sc.Cover("master-write-failed-on-leaving")
+					return fmt.Errorf("zk: connection closed (injected)")
+				}
+				return nil
+			}
+		}
 		s.Start()
 		time.Sleep(14 * time.Second)
 		master := hosts[0]
@@ -370,6 +384,7 @@ func c09Run(u *Unit) {
 			time.Sleep(30 * time.Second)
 		}
 		if sp.Leave {
+			failArmed.Store(true)
 			v, _ := s.Cached("maintenance")
 			var mt map[string]any
 			_ = json.Unmarshal([]byte(v), &mt)
